@@ -637,3 +637,74 @@ package trzsz
 //@   ensures forall k int {wlog[e.writer][k]} :: k < old(wlen)[e.writer] ==> wlog[e.writer][k] == old(wlog)[e.writer][k]
 //@   ensures forall w int {wlog[w]} :: w != e.writer ==> wlog[w] == old(wlog)[w]
 //@ end
+
+// ---- C15: the producing side ------------------------------------------------------------------
+
+//@ # bytes one entry occupies in the stream: its header line, and its content unless it is a directory
+//@ pure entSize(s *sourceFile) int = len(s.Header) + 1 + ite(s.IsDir, 0, s.Size)
+
+//@ # 'suffix' is a logical variable DEFINED by the entry list: suffix[k] = total size of entries k.. .
+//@ # (Any entry list has such a table; requiring it loses no generality.)
+//@ pure suffixOf(files []*sourceFile, suffix map[int]int) bool = suffix[len(files)] == 0 && \
+//@     (forall j int {suffix[j]} :: 0 <= j && j < len(files) ==> \
+//@         files[j] != nil && files[j].Size >= 0 && suffix[j] == suffix[j + 1] + entSize(files[j]))
+
+//@ # bytes the reader still has to produce
+//@ pure arRem(f *archiveFileReader, suffix map[int]int) int = \
+//@     ite(f.src != nil, len(f.buf) + ite(f.file != nil, f.left, 0), 0) + suffix[f.idx]
+
+//@ pure arWF(f *archiveFileReader) bool = 0 <= f.idx && f.idx <= len(f.files) && 0 <= f.left
+
+//@ axiom eofIsNotOurs: !typeis(pkgvar("io.EOF"), "*trzszError") && pkgvar("io.EOF") != nil
+
+//@ # Each Read hands out n bytes and the amount still owed drops by exactly n; EOF is reported only
+//@ # when nothing is owed any more. Summed over the calls: bytes produced == announced size, and a
+//@ # file that ends early (left != 0 at EOF) can only end in an error, never in silently shifted entries.
+//@ func archiveFileReader.Read
+//@   ghost suffix map[int]int
+//@   requires suffixOf(f.files, suffix) && arWF(f)
+//@   requires ref(f.files) != ref(p) || len(p) == 0
+//@   assigns f.src, f.idx, f.buf, f.file, f.left, elems(p), elemsof("byte")
+//@   ensures arWF(f)
+//@   ensures 0 <= r0 && r0 <= len(p)
+//@   ensures r1 == nil ==> arRem(f, suffix) == old(arRem(f, suffix)) - r0
+//@   ensures r1 == nil && len(p) > 0 ==> r0 > 0
+//@   ensures r1 == pkgvar("io.EOF") ==> r0 == 0 && old(arRem(f, suffix)) == 0
+//@   loop 1
+//@     invariant arWF(f) && arRem(f, suffix) == old(arRem(f, suffix))
+//@ end
+
+//@ # sum of es[0..k): a logical function; the recursive equation is unfolded only where a contract
+//@ # mentions sumUnfold(es, k)
+//@ rec sumTo(es map[int]int, k int) int
+//@ rec sumUnfold(es map[int]int, k int) bool
+//@ axiom sumTo0: forall es map[int]int {sumTo(es, 0)} :: sumTo(es, 0) == 0
+//@ axiom sumToStep: forall es map[int]int, k int {sumUnfold(es, k)} :: \
+//@     sumUnfold(es, k) && (0 <= k ==> sumTo(es, k + 1) == sumTo(es, k) + es[k])
+
+//@ # The size announced for an archive stream is the sum of its entries' sizes - where es is ANY table
+//@ # that lists, per entry, the bytes its header line and content will occupy.
+//@ func trzszTransfer.newArchiveReader
+//@   ghost es map[int]int
+//@   requires forall j int {srcFile.SubFiles[j]} :: 0 <= j && j < len(srcFile.SubFiles) ==> srcFile.SubFiles[j] != nil
+//@   requires forall i int, j int {srcFile.SubFiles[i], srcFile.SubFiles[j]} :: \
+//@       0 <= i && i < j && j < len(srcFile.SubFiles) ==> srcFile.SubFiles[i] != srcFile.SubFiles[j]
+//@   ensures r1 == nil ==> typeis(r0, "*archiveFileReader") && \
+//@       same(unboxTo(r0, "*archiveFileReader").files, srcFile.SubFiles) && \
+//@       unboxTo(r0, "*archiveFileReader").idx == 0 && unboxTo(r0, "*archiveFileReader").src == nil && \
+//@       unboxTo(r0, "*archiveFileReader").left == 0
+//@   ensures r1 == nil && \
+//@       (forall j int {es[j]} :: 0 <= j && j < len(srcFile.SubFiles) ==> es[j] == entSize(srcFile.SubFiles[j])) ==> \
+//@       unboxTo(r0, "*archiveFileReader").size == sumTo(es, len(srcFile.SubFiles))
+//@   loop 1
+//@     invariant 0 <= #i && #i <= len(srcFile.SubFiles)
+//@     invariant sumUnfold(es, #i)
+//@     invariant (forall j int {es[j]} :: 0 <= j && j < #i ==> es[j] == entSize(srcFile.SubFiles[j])) ==> size == sumTo(es, #i)
+//@     invariant forall j int {srcFile.SubFiles[j]} :: 0 <= j && j < len(srcFile.SubFiles) ==> srcFile.SubFiles[j] != nil
+//@     invariant forall i int, j int {srcFile.SubFiles[i], srcFile.SubFiles[j]} :: \
+//@       0 <= i && i < j && j < len(srcFile.SubFiles) ==> srcFile.SubFiles[i] != srcFile.SubFiles[j]
+//@ end
+
+//@ func sourceFile.marshalSourceFile
+//@   assigns f.Archive
+//@ end
